@@ -76,6 +76,7 @@ pub fn run(tier: Tier) -> i32 {
     }
     // real token offsets of Σ_small under Λ
     let small = corpus::build_small();
+    let all_dets = crate::dets::all();
     let res2 = util::par_map(small.progs.len(), |i| {
         let p = &small.progs[i];
         let mut vs = Vec::new();
@@ -103,6 +104,40 @@ pub fn run(tier: Tier) -> i32 {
                         unit_test: format!("#[test]\nfn replay() {{\n    assert_eq!(solstat::analyzer::utils::get_line_number({}, {:?}), {});\n}}\n", o, text, want),
                         extra: json!({"layout": l.label}),
                     });
+                }
+            }
+        }
+        // (c) reported lines follow the construct through equal-length re-layouts analysed back to back
+        //     on the same thread (blank vs line feed at one gap): every reported line must be the line
+        //     of a token flagged on the one-token-per-line layout
+        let (l1, _) = crate::synth::render_l1(&p.toks);
+        let n = p.toks.len();
+        for d in &all_dets {
+            let flagged: Vec<usize> = match crate::dets::run_guarded(d, &l1, 0) {
+                Ok(ls) if !ls.is_empty() && ls.iter().all(|&l| l >= 1 && (l as usize) <= n) => ls.iter().map(|&l| (l - 1) as usize).collect(),
+                _ => continue,
+            };
+            let base = layout::Layout { gaps: vec![0; n + 1], tight: false, ending: 0, label: "default".into() };
+            let (t0, o0) = layout::render(&p.toks, &base);
+            for g in (1..n).step_by(((n / 6).max(1)) as usize) {
+                let mut gaps = vec![0; n + 1];
+                gaps[g] = 1;
+                let (t1, o1) = layout::render(&p.toks, &layout::Layout { gaps, tight: false, ending: 0, label: format!("lf at gap {}", g) });
+                for (text, offs) in [(&t0, &o0), (&t1, &o1), (&t0, &o0)] {
+                    calls += 1;
+                    let want: std::collections::BTreeSet<i32> = flagged.iter().map(|&t| layout::line_of(text, offs[t])).collect();
+                    let got = crate::dets::run_guarded(d, text, 0);
+                    if got.as_ref().ok() != Some(&want) {
+                        vs.push(Violation {
+                            site: format!("{}:line-does-not-follow-relayout", d.name),
+                            input: format!("{:?} (analysed right after an equal-length layout of the same tokens)", text),
+                            expected: format!("lines {:?}", want),
+                            observed: format!("{:?}", got),
+                            size: 20_000 + text.len(),
+                            unit_test: crate::dets::unit_test_for(d, text, "lines must be those of the flagged constructs in THIS text"),
+                            extra: json!({}),
+                        });
+                    }
                 }
             }
         }
